@@ -58,6 +58,7 @@ type Cex struct {
 }
 
 type Witness struct {
+	Failed []string // assertions that fail on the whole path (expected to fail natively too)
 	Approx bool // the path condition contains float rounding variables (over-approximation): a native mismatch is not a translator bug
 	Entry  string
 	Table  map[string]interface{}
@@ -1376,11 +1377,12 @@ func (m *M) obligation(cond *smt.Term, tag string, implicit bool) {
 	}
 	ex.mu.Unlock()
 	if res != smt.Unsat {
-		// continue under the assumption that the assertion held
-		if cond.IsFalse() || !m.feasible(cond) {
-			panic(dropPath{why: "assertion fails on the whole path"})
+		// continue under the assumption that the assertion held (when it can hold at all on this path)
+		if !cond.IsFalse() && m.feasible(cond) {
+			m.st.PC = append(m.st.PC, cond)
+		} else if !implicit {
+			m.st.Failed = append(m.st.Failed, tag)
 		}
-		m.st.PC = append(m.st.PC, cond)
 	}
 }
 
@@ -1441,7 +1443,7 @@ func (m *M) recordWitness(status string) {
 	if res != smt.Sat {
 		return
 	}
-	w := &Witness{Entry: ex.Entry.Name(), Table: m.tableFromModel(model[:nw]), Status: status}
+	w := &Witness{Entry: ex.Entry.Name(), Table: m.tableFromModel(model[:nw]), Status: status, Failed: append([]string(nil), m.st.Failed...)}
 	for _, c := range m.st.PC {
 		for _, v := range termVars(c) {
 			if strings.HasPrefix(v, "fl_") || strings.HasPrefix(v, "fk_") || strings.HasPrefix(v, poisonPrefix) || strings.HasPrefix(v, "anyint_") || strings.HasPrefix(v, "now_") || strings.HasPrefix(v, "rand_") {
